@@ -58,7 +58,11 @@ def run(ck):
         "exact model bounded to n <= 6 statistics, K <= 3 classes, em_iterations <= 2, pairwise trees of 1..64 leaves",
         "float comparison |bag - list| <= 1e-8 max(1,|list|) on U, V, D, T, sigma (re-association of sums across "
         "partitions moves results by ~1e-15; the defects in scope move them by O(1))",
-        "_prepare_dask_input is private: its direct comparison with the model is an additional binding only"]
+        "_prepare_dask_input is private: its direct comparison with the model is an additional binding only",
+        "bags whose partitions are one-shot iterators (generator / map objects, as bag.map_partitions may return) are "
+        "given to IVectorMachine.fit only: ISVMachine / JFAMachine.fit refuse them with a TypeError from len() on the "
+        "unchanged tree -- a refusal, not a wrong model, and the container type of a partition is not among the things "
+        "C12 quantifies over"]
     reported = collections.Counter()
 
     # ------------------------------------------------------------------ M1
@@ -216,6 +220,9 @@ def ivector_scenarios(rng, quick, tree_recs):
     for k, scn in enumerate(out):
         scn["seed"] = rng.randrange(10 ** 6)
         scn["update_sigma"] = (k % 5 != 4)
+        if k % 4 == 3:
+            scn["builder"] = ("lazy-generator", "lazy-map")[(k // 4) % 2]
+            scn["mode"] = "Shared"      # a generator cannot be serialised: such partitions live in one process
     return out
 
 
@@ -273,6 +280,11 @@ def build_bag(stats, comp, builder):
         for kw in ({"npartitions": len(comp)}, {"partition_size": comp[0]}):
             if from_sequence_lengths(n, kw) == comp:
                 return db.from_sequence(stats, **kw), "from_sequence(%s=%d)" % next(iter(kw.items()))
+    if builder == "lazy-generator":
+        # partitions produced lazily: each is a one-shot iterator, as after bag.map_partitions(generator function)
+        return bm.bag_exact(stats, comp).map_partitions(lambda part: (s for s in part)), "from_delayed + generator partitions"
+    if builder == "lazy-map":
+        return bm.bag_exact(stats, comp).map_partitions(lambda part: map(lambda s: s, part)), "from_delayed + map-object partitions"
     return bm.bag_exact(stats, comp), "from_delayed"
 
 
